@@ -1,11 +1,14 @@
 #!/usr/bin/env python3
-"""Regression over every stored seeded change: python3 lib/seedall.py [--only Cxx]
+"""Regression over every stored seeded change: python3 lib/seedall.py [--only Cxx] [--shard k/n]
 Each seed is tested against the property in its meta.json (quick tier); prints MISSED lines for seeds no check catches."""
 import json, os, subprocess, sys
-only = sys.argv[2] if len(sys.argv) > 2 and sys.argv[1] == "--only" else None
+only = sys.argv[sys.argv.index("--only") + 1] if "--only" in sys.argv else None
+shard = tuple(int(x) for x in sys.argv[sys.argv.index("--shard") + 1].split("/")) if "--shard" in sys.argv else (0, 1)
 root = "/verif/seeded"
 missed = []
-for name in sorted(os.listdir(root)):
+for idx, name in enumerate(sorted(os.listdir(root))):
+    if idx % shard[1] != shard[0]:
+        continue
     d = os.path.join(root, name)
     meta = json.load(open(os.path.join(d, "meta.json")))
     prop = meta["property"]
